@@ -551,8 +551,9 @@ class Engine:
         self.ttl = self.step = None
         self.n = 0
 
-    def build(self):
-        self.bin = self.ck.go_test_bin("", ["root/zz_verif_sched_test.go"], name="root_sched")
+    def build(self, extra_files=()):
+        """extra_files: further executors to link into the same test binary (e.g. the db executor for DB -> scheduler pipelines)"""
+        self.bin = self.ck.go_test_bin("", ["root/zz_verif_sched_test.go"] + list(extra_files), name="root_sched")
         if self.bin is None:
             return False
         r = self.run_go([])
@@ -679,7 +680,7 @@ def run_property(ck, eng, ctxs, monitor, proofs_ok, what):
                     r = replay_of(c, o, eng.ttl, eng.step)
                     r.update({"kind": "monitor:" + name, "all_failed_monitors": bad[:10]})
                     if c.get("chain"):
-                        pre = chain_prefix(ctxs, i)
+                        pre = [strip_trace(x) for x in chain_prefix(ctxs, i)]
                         r.update({"sequence": pre, "sequence_go_input_lines": [ctx_line(x) for x in pre],
                                   "note": "rounds run in this order on ONE scheduler object; the last one is the failing round"})
                     ck.violation("%s: %s (context %s)" % (name, det, c.get("tag")), r)
@@ -702,13 +703,23 @@ def run_property(ck, eng, ctxs, monitor, proofs_ok, what):
     if not proofs_ok:
         return obs
     t0 = time.time()
-    mm = eng.run_model(ctxs, obs)
+    unexplained = model_disagreements(ck, eng, ctxs, obs, flagged)
     ck.cov["timing"]["model_s"] = round(time.time() - t0, 1)
-    if mm is None:
+    if unexplained is None:
         return obs
     ck.cov["traces_validated_against_impl"] = ck.cov.get("traces_validated_against_impl", 0) + len(ctxs)
+    report_disagreements(ck, eng, ctxs, obs, unexplained)
+    return obs
+
+
+def model_disagreements(ck, eng, ctxs, obs, flagged=()):
+    """indexes of the contexts whose observed outcome is not in the model's allowed set and that no monitor flagged (None if the
+    model could not be evaluated)"""
+    mm = eng.run_model(ctxs, obs)
+    if mm is None:
+        return None
     unexplained = [i for i in mm if i not in flagged]
-    ck.cov["model_disagreements"] = len(mm)
+    ck.cov["model_disagreements"] = ck.cov.get("model_disagreements", 0) + len(mm)
     # The properties leave ONE point free (DESIGN.md Appendix F, C05): a NodeHost that reported exactly ttl ago may or may
     # not count as live for placement (the code says no: liveFilter is strict).  A disagreement that disappears when
     # such NodeHosts are treated as live is recorded, not reported.
@@ -726,14 +737,22 @@ def run_property(ck, eng, ctxs, monitor, proofs_ok, what):
                 ck.cov["free_point_deviations"] = ("%d contexts: the outcome agrees with the model only if a NodeHost that reported exactly ttl ago counts "
                                                    "as live for placement (point left free by C02/C05); e.g. context %s" % (len(tolerated), ctxs[min(tolerated)].get("tag")))
                 unexplained = [i for i in unexplained if i not in tolerated]
+    return unexplained
+
+
+def strip_trace(c):
+    """a context of a sequence without the (long) DB command trace it was computed from"""
+    return {k: v for k, v in c.items() if k != "db_trace"}
+
+
+def report_disagreements(ck, eng, ctxs, obs, unexplained):
     if unexplained and not ck.violations:
         i = unexplained[0]
         r = replay_of(ctxs[i], obs[i], eng.ttl, eng.step)
         r.update({"kind": "correspondence", "engine": "sched", "n_disagreements": len(unexplained), "coq_observed": obs_coq(obs[i]),
                   "theorems": ck.cov.get("theorems")})
         if ctxs[i].get("chain"):
-            pre = chain_prefix(ctxs, i)
+            pre = [strip_trace(x) for x in chain_prefix(ctxs, i)]
             r.update({"sequence": pre, "sequence_go_input_lines": [ctx_line(x) for x in pre]})
         ck.violation("the scheduler's outcome is not in the model's allowed set for %d contexts but no property monitor failed; first: context %s, observed %s" % (
             len(unexplained), ctxs[i].get("tag"), obs_coq(obs[i])[:300]), r, found_input=False)
-    return obs
